@@ -6,6 +6,8 @@ CONSTANTS
   MaxBatches = 0
   MaxOps = 0
   StaleFill = TRUE
+  FillOverwrite = FALSE
+  NoNegativeEntry = FALSE
   Gen = TRUE
 VIEW tview
 INVARIANT NotDone
